@@ -142,8 +142,11 @@ pub fn oracle(sc: &Scenario, case: &Case, res: &RunResult, t_fault: Option<u64>)
         let peer_keeps_reading = peer.reader_done; // ReadToEnd finished = EOF or error seen
         // (1) success means acked: every flush/shutdown that returned Ok with m bytes written => the peer application,
         // which keeps reading, obtains at least m bytes (whatever the network did afterwards)
+        // (a peer whose own socket was cancelled has stopped by its own action: nothing is promised about what its
+        // application still obtains)
+        let peer_cancelled = matches!(case.fault, Fault::Cancel { sock, .. } if (sock % 2) as usize == 1 - side);
         for (t, m, is_shutdown) in &me.sync_points {
-            if *m > peer.read && (peer_keeps_reading || res.scripts_done) {
+            if *m > peer.read && (peer_keeps_reading || res.scripts_done) && !peer_cancelled {
                 viol!(if *is_shutdown { "shutdown-ok-but-bytes-missing" } else { "flush-ok-but-bytes-missing" }, "side {side}: {} returned Ok at t={} us after {} bytes had been written, but the peer application, which kept reading until {}, obtained only {} bytes", if *is_shutdown { "shutdown" } else { "flush" }, t, m, if peer.eof { "end-of-stream" } else { "an error" }, peer.read);
             }
             if t_fault.is_some_and(|tf| *t <= tf) { labels.insert("sync_point_before_fault"); }
@@ -152,7 +155,7 @@ pub fn oracle(sc: &Scenario, case: &Case, res: &RunResult, t_fault: Option<u64>)
         // (2) no silent truncation: clean end-of-stream with bytes missing while the writer was told its shutdown succeeded
         if peer.eof {
             if let Some((t, m, _)) = me.sync_points.iter().filter(|s| s.2).last() {
-                if peer.read < *m {
+                if peer.read < *m && !peer_cancelled {
                     viol!("clean-eof-with-bytes-missing", "side {}: the reader saw a clean end-of-stream after {} bytes although the peer's shutdown had returned Ok (t={} us) for {} bytes", 1 - side, peer.read, t, m);
                 }
             }
